@@ -185,3 +185,28 @@ package generator
 //@   props C07 C06
 //@   ensures delegateTo.ReturnError && !g.lookup.ByID(ctx.IndexID).ReturnError ==> err != nil && result == nil
 //@   ensures err == nil ==> result != nil
+
+// ---- C15/C16: output files ----
+//@ func getOutputDir
+//@   props C15
+//@   pure
+//@   requires@C13 c != nil
+//@   ensures result == ite(filepath.IsAbs(c.OutputFile), c.OutputFile, filepath.Join(filepath.Dir(c.FileName), c.OutputFile))
+
+// Get: a file is created once per output path, with the generated-code header and (iff configured) the build
+// constraint; converters selecting the same path share the file and the namer and must agree on the package
+//@ func fileManager.Get
+//@   props C15 C16
+//@   requires@C13 m != nil && conv != nil && m.Files != nil
+//@   ensures err == nil ==> has(m.Files, getOutputDir(conv)) && result0 == m.Files[getOutputDir(conv)].Content && result1 == m.Files[getOutputDir(conv)].Namer
+//@   ensures old(has(m.Files, getOutputDir(conv))) ==> m.Files[getOutputDir(conv)] == old(m.Files[getOutputDir(conv)])
+//@   ensures old(has(m.Files, getOutputDir(conv))) && old(m.Files[getOutputDir(conv)].PackageID) != conv.PackageID() ==> err != nil
+//@   ensures forall k string :: k != getOutputDir(conv) ==> has(m.Files, k) == old(has(m.Files, k)) && m.Files[k] == old(m.Files[k])
+//@   at@C16 call f.Content.HeaderComment#* assert !ok
+//@   at@C16 call f.Content.HeaderComment#1 assert arg0 == "// Code generated by github.com/jmattheis/goverter, DO NOT EDIT."
+//@   at@C16 call f.Content.HeaderComment#2 assert cfg.BuildConstraint != "" && arg0 == "//go:build " + cfg.BuildConstraint
+//@   at@C16 return assert !ok && cfg.BuildConstraint == "" ==> true
+
+//@ func Generate
+//@   props C15 C17 C03
+//@   propagates
